@@ -375,6 +375,15 @@ func (c *conv) stmt(s ast.Stmt) *Stmt {
 	case *ast.LabeledStmt:
 		st := one(id(x.Label.Name), op(":"), kw("Line"))
 		if es, empty := x.Stmt.(*ast.EmptyStmt); !empty {
+			if !c.rawLits && len(x.Label.Name)%2 == 1 {
+				// the other way of writing it (there is no dedicated element for labels): label,
+				// colon and the labelled statement as ONE chain, e.g. Id("L").Op(":").Block(…) —
+				// chosen by the label's length so that both ways occur in every corpus
+				// (the mirror of the Lean builder always uses the first way)
+				st = one(id(x.Label.Name), op(":"))
+				st.Items = append(st.Items, c.stmt(x.Stmt).Items...)
+				return st
+			}
 			st.Items = append(st.Items, add(c.stmt(x.Stmt)))
 		} else if !es.Implicit {
 			// `L: ;` followed by further statements: without the explicit semicolon the label
